@@ -211,21 +211,16 @@ func unmarshalCapability(a *api.Capability) (bgp.ParameterCapabilityInterface, e
 		a := cap.GracefulRestart
 		tuples := make([]*bgp.CapGracefulRestartTuple, 0, len(a.Tuples))
 		for _, t := range a.Tuples {
-			var forward bool
-			if t.Flags&0x80 > 0 {
-				forward = true
-			}
-			tuples = append(tuples, bgp.NewCapGracefulRestartTuple(ToFamily(t.Family), forward))
+			// The API carries the whole flags octet (see
+			// NewGracefulRestartCapability), so hand it back as it is instead
+			// of rebuilding it from the forwarding bit alone.
+			tuple := bgp.NewCapGracefulRestartTuple(ToFamily(t.Family), false)
+			tuple.Flags = uint8(t.Flags)
+			tuples = append(tuples, tuple)
 		}
-		var restarting bool
-		if a.Flags&0x08 > 0 {
-			restarting = true
-		}
-		var notification bool
-		if a.Flags&0x04 > 0 {
-			notification = true
-		}
-		return bgp.NewCapGracefulRestart(restarting, notification, uint16(a.Time), tuples), nil
+		c := bgp.NewCapGracefulRestart(false, false, uint16(a.Time), tuples)
+		c.Flags = uint8(a.Flags)
+		return c, nil
 	case *api.Capability_FourOctetAsn:
 		a := cap.FourOctetAsn
 		return bgp.NewCapFourOctetASNumber(a.Asn), nil
@@ -242,11 +237,9 @@ func unmarshalCapability(a *api.Capability) (bgp.ParameterCapabilityInterface, e
 		a := cap.LongLivedGracefulRestart
 		tuples := make([]*bgp.CapLongLivedGracefulRestartTuple, 0, len(a.Tuples))
 		for _, t := range a.Tuples {
-			var forward bool
-			if t.Flags&0x80 > 0 {
-				forward = true
-			}
-			tuples = append(tuples, bgp.NewCapLongLivedGracefulRestartTuple(ToFamily(t.Family), forward, t.Time))
+			tuple := bgp.NewCapLongLivedGracefulRestartTuple(ToFamily(t.Family), false, t.Time)
+			tuple.Flags = uint8(t.Flags)
+			tuples = append(tuples, tuple)
 		}
 		return bgp.NewCapLongLivedGracefulRestart(tuples), nil
 	case *api.Capability_RouteRefreshCisco:
